@@ -143,6 +143,28 @@ def integer_bounds(ck, tier, seed):
                                {"search": "integer-boxes", "family": fam, "box": box, "inverse": inverse})
 
 
+def sigmoid_end_points(ck, seed):
+    """Sigmoid.inverse / Logit on the closed unit interval, end points included, for clamps away from the default: finite outputs
+    and log-dets (float64 inputs resolve every eps used; float32 inputs are used with the default only)"""
+    from nflows.transforms import nonlinearities as nl
+    for eps in (1e-6, 1e-9, 1e-12):
+        for dtype in ((torch.float64, torch.float32) if eps == 1e-6 else (torch.float64,)):
+            for tname, mk, call in (("Sigmoid(eps=%g).inverse" % eps, lambda: nl.Sigmoid(eps=eps), "inverse"),
+                                    ("Logit(eps=%g).forward" % eps, lambda: nl.Logit(eps=eps), "forward"),
+                                    ("Sigmoid(temperature 2, eps=%g).inverse" % eps, lambda: nl.Sigmoid(temperature=2.0, eps=eps), "inverse")):
+                t = mk()
+                x = torch.tensor([[0.0, 0.5, 1.0], [1.0, 0.25, 0.0]], dtype=dtype)
+                ck.case(("sigmoid-ends", tname, str(dtype)), nontrivial=True)
+                case = {"search": "sigmoid-end-points", "transform": tname, "dtype": str(dtype)}
+                with torch.no_grad():
+                    r = attempt(getattr(t, call), x)
+                if r[0] != "ok":
+                    ck.finding("domain:in-domain-rejected:%s" % tname.split("(")[0], "%s on %s inputs [0, 0.5, 1]: %s %s" % (tname, dtype, r[1], r[2]), case)
+                elif not bool(torch.isfinite(r[1][0]).all() and torch.isfinite(r[1][1]).all()):
+                    ck.finding("domain:in-domain-non-finite:%s" % tname.split("(")[0],
+                               "%s on %s inputs [0, 0.5, 1] -> %s" % (tname, dtype, r[1][0][0].tolist()), case)
+
+
 def run(tier, seed):
     ck = Check("C17", tier, seed, areas=["splines", "nonlin"],
                gen_groups=["Nonlin", "SplineRQ", "SplineLinear", "SplineQuadratic", "SplineCubic", "Utils"])
@@ -156,6 +178,8 @@ def run(tier, seed):
         splines_corr.correspondence(ck, ck.driver("splines"), tier, seed)
     search(ck, tier, seed)
     integer_bounds(ck, tier, seed)
+    sh.module_double_inputs(ck, seed, "domain")
+    sigmoid_end_points(ck, seed)
     return ck.finish()
 
 
